@@ -269,8 +269,27 @@ func (st *state) absentHeight(pick int) uint64 {
 	return cands[pick%len(cands)]
 }
 
+// affordable accounts for the worst-case number of files a search for a marker
+// in file f opens (every file from the newest down to f is read to the end of
+// the group) and refuses once the run's allowance is used up. The intact log
+// is always searched.
+func (rd *reader) affordable(d damage, f int) bool {
+	st := rd.st
+	n := len(st.lay.names) - f
+	est := n * (n + 1) / 2
+	if d.kind != "intact" && st.searchCap > 0 && st.searchWork+est > st.searchCap {
+		st.c.Probe("searches_skipped_for_cost")
+		return false
+	}
+	st.searchWork += est
+	return true
+}
+
 func (rd *reader) search(d damage, h uint64, ignore bool) (found bool, err error, ok bool) {
 	st := rd.st
+	if !rd.affordable(d, 0) {
+		return false, nil, false
+	}
 	var closer interface{ Close() error }
 	site, msg, panicked := kernel.Try(func() {
 		gr, f, e := rd.wal.SearchForEndHeight(h, &cs.WALSearchOptions{IgnoreDataCorruptionErrors: ignore})
@@ -297,6 +316,9 @@ func (rd *reader) searchWritten(d damage, mi int, ignore bool) {
 	st := rd.st
 	m := st.markers[mi]
 	want := m.End <= d.x
+	if !rd.affordable(d, st.lay.fileOf(m.Off)) {
+		return
+	}
 	var gr io.ReadCloser
 	var found bool
 	var err error
